@@ -47,13 +47,26 @@ func RemoveCommasFilter(x Sexp) bool {
 	return true
 }
 
+// MaxFilterDepth is the nesting depth to which the filters follow arrays and
+// lists; what lies deeper is kept as it is.
+const MaxFilterDepth = 10000
+
 func (env *Zlisp) FilterAny(x Sexp, f Filter) (filtered Sexp, keep bool) {
+	return env.filterAny(x, f, 0)
+}
+
+// filterAny is FilterAny at the given nesting depth. A value handed to eval
+// can contain itself (see aset), so the descent has a bound.
+func (env *Zlisp) filterAny(x Sexp, f Filter, depth int) (filtered Sexp, keep bool) {
+	if depth > MaxFilterDepth {
+		return x, true
+	}
 	switch ele := x.(type) {
 	case *SexpArray:
-		res := &SexpArray{Val: env.FilterArray(ele.Val, f), Typ: ele.Typ, IsFuncDeclTypeArray: ele.IsFuncDeclTypeArray, Env: env}
+		res := &SexpArray{Val: env.filterArray(ele.Val, f, depth+1), Typ: ele.Typ, IsFuncDeclTypeArray: ele.IsFuncDeclTypeArray, Env: env}
 		return res, true
 	case *SexpPair:
-		return env.FilterList(ele, f), true
+		return env.filterList(ele, f, depth+1), true
 	case *SexpHash:
 		return env.FilterHash(ele, f), true
 	default:
@@ -66,13 +79,17 @@ func (env *Zlisp) FilterAny(x Sexp, f Filter) (filtered Sexp, keep bool) {
 }
 
 func (env *Zlisp) FilterArray(x []Sexp, f Filter) []Sexp {
+	return env.filterArray(x, f, 0)
+}
+
+func (env *Zlisp) filterArray(x []Sexp, f Filter, depth int) []Sexp {
 	//P("FilterArray: before: %d in size", len(x))
 	//for i := range x {
 	//P("x[i=%d] = %v", i, x[i].SexpString())
 	//}
 	res := []Sexp{}
 	for i := range x {
-		filtered, keep := env.FilterAny(x[i], f)
+		filtered, keep := env.filterAny(x[i], f, depth)
 		if keep {
 			res = append(res, filtered)
 		}
@@ -93,6 +110,10 @@ func (env *Zlisp) FilterHash(h *SexpHash, f Filter) *SexpHash {
 }
 
 func (env *Zlisp) FilterList(h *SexpPair, f Filter) Sexp {
+	return env.filterList(h, f, 0)
+}
+
+func (env *Zlisp) filterList(h *SexpPair, f Filter, depth int) Sexp {
 	//P("in FilterList")
 	arr, err := ListToArray(h)
 	res := []Sexp{}
@@ -100,6 +121,6 @@ func (env *Zlisp) FilterList(h *SexpPair, f Filter) Sexp {
 		// don't filter pair lists
 		return h
 	}
-	res = env.FilterArray(arr, f)
+	res = env.filterArray(arr, f, depth)
 	return MakeList(res)
 }
